@@ -2,6 +2,7 @@ package rules
 
 import (
 	"fmt"
+	"os"
 	"go/types"
 	"sort"
 	"strings"
@@ -390,6 +391,16 @@ func DumpDriver(c *core.Ctx, name string) {
 				as = append(as, clip(core.ArgName(a)))
 			}
 			fmt.Printf("  %-7s #%d %s(%s)\n", e.kind, e.ev.Index, shortName(e.ev.Callee), strings.Join(as, ", "))
+		}
+		if os.Getenv("VERIF_DEBUG") != "" {
+			for i := range p.out.Trace {
+				ev := &p.out.Trace[i]
+				var as []string
+				for _, a := range ev.Args {
+					as = append(as, clip(core.ArgName(a)))
+				}
+				fmt.Printf("  trace #%d %s(%s) -> %s\n", ev.Index, ev.Callee, strings.Join(as, ", "), clip(core.ArgName(ev.Ret)))
+			}
 		}
 		fmt.Printf("  labels: %v\n", p.labels(m.ue))
 		var rs []string
